@@ -736,3 +736,62 @@ func ShiftStrings(t *T, v V, k byte) V {
 	}
 	return o
 }
+
+// Big builds a value of t with n elements / entries / bytes (all distinct where the type
+// allows), for the amplification inputs of C04. ok is false for types without a size.
+func Big(t *T, n int) (V, bool) {
+	pick := func(e *T, i int) V {
+		vals := Values(e, 1)
+		var good []V
+		for _, v := range vals[1:] {
+			if !NestedAbsent(e, v) && !(e.K == KPtr && v.Nil) {
+				good = append(good, v)
+			}
+		}
+		if len(good) == 0 {
+			return Zero(e)
+		}
+		return good[i%len(good)]
+	}
+	switch t.K {
+	case KString, KBytes:
+		b := make([]byte, n)
+		for i := range b {
+			b[i] = byte('a' + i%23)
+		}
+		return V{S: string(b)}, true
+	case KSlice:
+		x := V{E: make([]V, n)}
+		for i := range x.E {
+			x.E[i] = pick(t.Elem, i)
+		}
+		return x, true
+	case KMap:
+		x := V{}
+		for i := 0; i < n; i++ {
+			var k V
+			switch t.Key.K {
+			case KString:
+				k = V{S: "k" + itoa(i)}
+			case KInt, KInt64, KUint, KUint64, KInt32, KUint32:
+				k = V{U: uint64(i + 1)}
+			case KStruct:
+				k = V{E: make([]V, len(t.Key.Fields))}
+				for j, f := range t.Key.Fields {
+					k.E[j] = Zero(f.T)
+					if f.T.K == KInt || f.T.K == KUint || f.T.K == KInt64 {
+						k.E[j] = V{U: uint64(i*7 + j)}
+					}
+				}
+			default:
+				return V{}, false
+			}
+			x.E = append(x.E, k, pick(t.Elem, i))
+		}
+		return x, true
+	case KPtr:
+		e, ok := Big(t.Elem, n)
+		return V{E: []V{e}}, ok
+	}
+	return V{}, false
+}
